@@ -34,7 +34,9 @@ def main(argv):
         # ---- 1. negative configurations
         negs = [("MC_NameWire", "Neg_NameWire_pinned.cfg"), ("MC_Compress", "Neg_Compress_noguard.cfg"),
                 ("MC_Compress", "Neg_Compress_absolute.cfg"), ("MC_Store", "Neg_Store_concat.cfg"),
-                ("MC_Store", "Neg_Store_overwrite.cfg"), ("MC_Mdns", "Neg_Mdns_pinned.cfg"), ("MC_Sink", "Neg_Sink_seekend.cfg")]
+                ("MC_Store", "Neg_Store_overwrite.cfg"), ("MC_Mdns", "Neg_Mdns_pinned.cfg"), ("MC_Sink", "Neg_Sink_seekend.cfg"),
+                ("MC_Discovery", "Neg_Discovery_keeplater.cfg"), ("MC_Discovery", "Neg_Discovery_portless.cfg"),
+                ("MC_Discovery", "Neg_Discovery_shortttl.cfg"), ("MC_Discovery", "Neg_Discovery_asyncbye.cfg")]
         for mod, cfg in negs:
             rc, out = chk.tlc(mod + ".tla", os.path.join(chk.SPEC, cfg), os.path.join(wd, "md_" + cfg), 4, 600)
             refuted = "is violated" in out
